@@ -1247,6 +1247,19 @@ func enumerate(e *enumerator) {
 		{Kind: "refund", Miner: "M1", Amt: []string{"1"}},
 		{Kind: "call", Eth: true, To: []string{"CP"}, Amt: []string{"1"}},
 	}
+	if th {
+		alpha = append(alpha,
+			txSpec{Kind: "transfer", To: []string{"N"}, Amt: []string{"0.000000000000000001"}},
+			txSpec{Kind: "call", To: []string{"CC"}, Amt: []string{"1"}},
+			txSpec{Kind: "call", To: []string{"N"}, Amt: []string{"1"}},
+			txSpec{Kind: "call", To: []string{"C0"}, Amt: []string{"-5"}},
+			txSpec{Kind: "create", Init: "sdother", Amt: []string{"1"}},
+			txSpec{Kind: "create", Eth: true, Init: "plain", Amt: []string{"1"}},
+			txSpec{Kind: "apply", Miner: "M1", MType: int(common.MinerTypeProposer), Stake: 2000, Acct: "B"},
+			txSpec{Kind: "refund", From: "B", Miner: "M1", Amt: []string{"2000"}},
+			txSpec{Kind: "add", Miner: "M2", Stake: 400},
+		)
+	}
 	type wcfg struct{ sb, cb, prog string }
 	worlds := []wcfg{
 		{e27, e18, "call:CS:cv:stop"},
@@ -1353,7 +1366,7 @@ func main() {
 			if tier == "thorough" {
 				return 17 * time.Minute
 			}
-			return 70 * time.Second
+			return 75 * time.Second
 		},
 	})
 }
